@@ -186,6 +186,23 @@ def run(chk):
             chk.count(1, key=("map-prior-changed-later",))
             if not np.array_equal(g_map, g_prior):
                 chk.fail("after its prior was re-parameterised, a MAP-adapted machine passed as the UBM no longer gives the scores of its prior (stale snapshot)", ctx)
+        # ---- test statistics accumulated from a Dask array that is ALSO chunked along the feature axis: the same statistics, the same scores
+        if i % 3 == 1 and D >= 2:
+            import dask.array as _da
+            Xd_ = gen.sample_from(r, w, mu + s * 0.5, var, 8)
+            st_n = ubm.acc_stats(Xd_)
+            for fch_ in (tuple([1] * D), (1, D - 1)):
+                try:
+                    st_d = ubm.acc_stats(_da.from_array(Xd_, chunks=((3, 5), fch_)))
+                    chk.count(1, key=("acc_stats, feature-axis chunks", len(fch_)))
+                    sc_n = np.asarray(linear_scoring(models, ubm, [st_n], 0, True))
+                    sc_d = np.asarray(linear_scoring(models, ubm, [st_d], 0, True))
+                    if not (int(st_d.t) == int(st_n.t) and np.allclose(np.asarray(st_d.n), np.asarray(st_n.n), rtol=1e-10) and np.asarray(st_d.sum_px).shape == np.asarray(st_n.sum_px).shape
+                            and np.allclose(sc_d, sc_n, rtol=1e-9, atol=1e-12)):
+                        chk.fail("statistics accumulated from a Dask array with feature-axis chunks %s (t = %s, sum_px shape %s) give linear scores %s instead of %s"
+                                 % (fch_, st_d.t, np.asarray(st_d.sum_px).shape, sc_d.ravel().tolist(), sc_n.ravel().tolist()), dict(ctx, feature_chunks=list(fch_)))
+                except Exception as e:
+                    chk.fail("acc_stats on a Dask array with feature-axis chunks %s raises %r" % (fch_, e), dict(ctx, feature_chunks=list(fch_)))
         # ---- derivative: d/de sum_i log p(x_i | ubm means moved by e (model - ubm)) at e = 0
         if i % 3 == 0:
             X = gen.sample_from(r, w, mu + s * 0.5, var, 6)
